@@ -189,6 +189,17 @@ CHECKS = {
         note='Trusted: Allowed(type) as my reading of the RFCs; the harness tokeniser (TLC asserts that Render of the tokenised '
              'value reproduces the canonical text); NEL (JSON) is not generated.',
         technique='TLA+ respelling actions enumerated by TLC; replay of the generated spellings into the real parsers'),
+    'C19': dict(
+        category='exploration',
+        text='Growth.tla states (1) the loop structure of the engine: with a strictly advancing cursor the loop terminates and work '
+             '<= variants * size (TLC; the zero-advance shape is rejected) and (2) the growth law over measurement series. For every '
+             'class with an accepted input, 50+ scalable input shapes (repetition, runs of 18 filler patterns after / before / '
+             'inside the input, length and count fields set to 2^3..2^31) are measured at sizes 256..4096 (thorough: 16384) with '
+             'sys.monitoring LINE events and call depth; Trace_Growth checks the doubling law, the per-byte bound, the depth bound.',
+        design_ref='6/C19, section 9',
+        note='Bounds only measured inputs (no proof about all inputs); constants Slack, PerByte, Base, DepthBound are stated in '
+             'Growth.tla; LINE events of CPython 3.12 stand for interpreter-level steps.',
+        technique='TLA+ growth law evaluated by TLC on deterministic step-count series; TLC termination/linearity of the loop model'),
 }
 
 NOT_APPLICABLE = {}
